@@ -67,9 +67,18 @@ def scan_forbidden():
     return hits
 
 
+def extract_tables():
+    """Translator step: regenerate lean/DDV/Extracted/Tables.lean from /repo's working tree."""
+    r = run([sys.executable, os.path.join(VERIF, "tools", "extract.py")], timeout=600)
+    return r.returncode == 0, (r.stdout or "") + (r.stderr or "")
+
+
 def lean_build(targets):
-    """lake build of the given module targets + driver. Returns (ok, log)."""
+    """Extract the source tables, then lake build of the given module targets + driver. Returns (ok, log)."""
     with Lock("lake"):
+        eok, elog = extract_tables()
+        if not eok:
+            return False, "table extraction failed: " + elog
         r = run(["lake", "build"] + targets, cwd=LEAN, timeout=3600)
     return r.returncode == 0, (r.stdout or "") + (r.stderr or "")
 
